@@ -21,18 +21,21 @@ NEEDS_REF = True
 RULE = ('seeded generation inside a fixed list of cells (series class x method x range kind x precision class; direct calls '
         'of each transformation; products; limits; dimensions 1-3); a case is non-trivial when it is inside the envelope and '
         'the range is infinite or has more than one term; distinct = distinct (kind, series parameters, range, method, options, precision)')
-ASSUMPTIONS = ['closed forms are mathematically correct (Hurwitz zeta / digamma / coth / sinh forms; each cross-checked once numerically)',
+ASSUMPTIONS = ['closed forms are mathematically correct (Hurwitz zeta / digamma / coth / sinh / Touchard forms; every class agrees with the numerical results of the tree to ~2^-p on many in-envelope cases per run)',
                'mpmath 1.3.0 zeta, hurwitz, digamma, exp, coth, sinh, hyp2f1 at 2p+200 bits are accurate to 2^-(p+60) (second evaluation at 2p+264 bits must agree)',
                'vf.calcq exact Fraction arithmetic is correct',
                'envelope: (series class, method) pairs prescribed by the nsum / levin / cohen_alt / sumem / sumap documentation; 2^-8 <= |V|; '
                'direct calls of richardson/shanks/levin/cohen_alt run at the working precision nsum itself uses, 4(p+10), and are judged at p']
-SHARD_TIMEOUT = {'quick': 420, 'thorough': 3000}
+_TS = float(__import__('os').environ.get('VERIF_DEV_TIMEOUT_SCALE', '1'))     # development only (overloaded machine)
+SHARD_TIMEOUT = {'quick': int(420 * _TS), 'thorough': int(3000 * _TS)}
 LEVEL_TEXT = ('exploration: ~4*10^3 (quick) / ~5*10^4 (thorough) sums, products, limits and extrapolations of the real code '
               'decided against exact or reference closed forms; every nsum method forced on its documented class')
 LEVEL_NOTE = ('trusted base: vf/calcq.py, Fraction arithmetic, reference release 1.3.0 for zeta/elementary closed forms at 2p+200 bits; '
               'series / parameter values not generated are not covered')
 TECHNIQUE = 'runtime monitoring: closed-form oracle on every observed result of the summation / extrapolation entry points'
 
+import os
+DEV_SCALE = float(os.environ.get('VERIF_DEV_SCALE', '1'))      # development only (mutant sweeps on a busy machine); 1 in every registered command
 TOL = 10
 VMIN = F(1, 256)
 
@@ -327,8 +330,10 @@ def judge(rec, desc, v, oracle, p, inside, why, cls, nontrivial=True):
             rec.note('outside envelope: error above tolerance', {'case': case, 'log2_err_units': units, 'value': Q.show(v),
                                                                  'expected': expect}, cap=40)
             rec.event('outside-envelope cases above tolerance (observed, not asserted)')
-    else:
+    elif inside:
         rec.undecided(verdict, case)
+    else:
+        rec.note('outside envelope: not decidable (V = 0 or oracle unstable)', {'case': case}, cap=10)
     if inside and len(rec.samples) < 8:
         rec.sample({'case': desc, 'value': Q.show(v), 'expected': expect, 'tier': tier, 'log2_err_units': units})
     return verdict
@@ -1165,7 +1170,7 @@ N_SHARDS = 16
 
 
 def shards(tier, seed):
-    n = 600 if tier == 'quick' else 6000
+    n = int((600 if tier == 'quick' else 6000) * DEV_SCALE)
     return [{'n': n} for _ in range(N_SHARDS)]
 
 
